@@ -378,7 +378,7 @@ class GuardFlow:
         return None
 
     # ---- the analysis -----------------------------------------------------------------
-    def analyse(self, gblock, accept):
+    def analyse(self, gblock, accept, removed=()):
         """Returns dict block id -> set of worlds at block ENTRY, where world =
         (atom, frozenset((local,value)))."""
         universe, accepted = universe_for(accept)
@@ -554,7 +554,7 @@ class GuardFlow:
                     for s in t.targets:
                         succ_worlds.setdefault(s, set()).add((atom, binds))
             for s, ws in succ_worlds.items():
-                if s not in cfg.succ:
+                if s not in cfg.succ or s in removed:
                     continue
                 cur = state.setdefault(s, set())
                 if not ws <= cur:
@@ -563,9 +563,9 @@ class GuardFlow:
         self.last = {'pure': pure, 'mixed': mixed, 'universe': universe, 'accepted': accepted}
         return state, accepted
 
-    def check_sink(self, gblock, accept, sblock, unconditional=True):
+    def check_sink(self, gblock, accept, sblock, unconditional=True, removed=()):
         """Returns (ok, detail).  detail lists the offending atoms at the sink."""
-        state, accepted = self.analyse(gblock, accept)
+        state, accepted = self.analyse(gblock, accept, removed)
         worlds = state.get(sblock, set())
         atoms = set(w[0] for w in worlds)
         bad = set()
